@@ -241,6 +241,20 @@ def add_complex(script, rng):
             if all(op[0] != "if" or True for op in body[:pos]):
                 body.insert(pos, ["assign", name, None, rhs, [], 0])
                 have = [name]
+        if rng.random() < 0.25:
+            # the quotient of two integers (two loop counters, or two lengths) stored into a scalar: not an integer
+            pos = rng.randint(0, len(body))
+            tgt = rng.choice(["qi", "<p>qi", "<state>qi"])
+            if rng.random() < 0.6:
+                body.insert(pos, ["assign", tgt, None, ["/", ["var", "i"], ["var", "j"]],
+                                  [["i", ["num", 0], ["num", 3]], ["j", ["num", 1], ["num", 3]]], 0])
+            else:
+                body[pos:pos] = [["call", ["qa"], "<builtin>array", [["num", 2]], {}, 0],
+                                 ["assign", "qa", ["var", "i"], ["var", "<dt>"], [["i", ["num", 0], ["num", 2]]], 0],
+                                 ["call", ["qb"], "<builtin>array", [["num", 5]], {}, 0],
+                                 ["assign", "qb", ["var", "i"], ["var", "<dt>"], [["i", ["num", 0], ["num", 5]]], 0],
+                                 ["assign", tgt, None, ["/", ["call", "<builtin>len", [["var", "qa"]], {}],
+                                                        ["call", "<builtin>len", [["var", "qb"]], {}]], [], 0]]
         if rng.random() < 0.3:
             # a complex SCALAR combined with a real ARRAY, in both operand orders and through every operator
             pos = rng.randint(0, len(body))
